@@ -132,7 +132,9 @@ RunCb(s) ==
 
 Start(t, u, how) ==
   /\ Op /\ alive[t] = "run" /\ alive[u] = "unborn" /\ \A w \in Tasks : w < u => alive[w] # "unborn"
-  /\ (how = "spawn" => tg[t] # 0)
+  \* spawning needs a current group that is still open (a plain task that outlived the async scope it inherited would
+  \* hit a finished TaskGroup and get RuntimeError - observed, judged by none of the properties, outside this model)
+  /\ (how = "spawn" => (tg[t] # 0 /\ phase[tg[t]] = "entered"))
   /\ alive' = [alive EXCEPT ![u] = "run"]
   /\ cur' = [cur EXCEPT ![u] = cur[t]] /\ tg' = [tg EXCEPT ![u] = tg[t]]
   /\ grp' = [grp EXCEPT ![u] = IF how = "spawn" THEN tg[t] ELSE 0]
